@@ -61,8 +61,11 @@ def main():
                 if rc != 0:
                     print(out); print(f"HARNESS-ERROR: {sid}/patch.diff does not apply to /repo HEAD"); return 2
                 # the other two profiles are only needed by the limits scenario
-                profs = ("checked", "shipped", "dev") if (run_all or prop == "C20") else ("checked",)
+                profs = ("checked", "shipped", "dev", "aborting") if (run_all or prop == "C20") else ("checked",)
+                defined = open(f"{tmp}/sim/Cargo.toml").read()
                 for prof in profs:
+                    if prof not in ("dev",) and f"[profile.{prof}]" not in defined:
+                        continue  # --sim-rev: a simulator from before that build existed
                     rc, out = sh(["cargo", "build", "--offline", "--profile", prof], cwd=f"{tmp}/sim", env=env)
                     if rc != 0:
                         print(out[-3000:]); print(f"HARNESS-ERROR: build failed with {sid} applied"); return 2
